@@ -152,23 +152,37 @@ theorem specificity_order :
 /-! ## page box geometry -/
 
 /-- **Page box equation.**  Unless all three of margin, size, margin are given (over-constrained: the
-    code then keeps them and the margin box no longer coincides with the sheet), the margins and the
-    content size fill the containing size exactly; `auto` values are resolved as CSS Page 3 states. -/
-theorem page_box_equation (cb : Rat) (mA inner mB : Option Rat) (h : mA = none ∨ inner = none ∨ mB = none) :
-    (pageWidthOrHeight cb mA inner mB).mA + (pageWidthOrHeight cb mA inner mB).inner
-      + (pageWidthOrHeight cb mA inner mB).mB = cb :=
-  pwh_eq cb mA inner mB h
+    code then keeps them and the margin box no longer coincides with the sheet), margin + border + padding
+    + content size + padding + border + margin fill the containing size exactly, on both axes (`pb` = the
+    page box's padding plus border on the axis: top AND bottom, left AND right); `auto` values are resolved
+    as CSS Page 3 states. -/
+theorem page_box_equation (cb pb : Rat) (mA inner mB : Option Rat) (h : mA = none ∨ inner = none ∨ mB = none) :
+    (pageWidthOrHeight cb pb mA inner mB).mA + pb + (pageWidthOrHeight cb pb mA inner mB).inner
+      + (pageWidthOrHeight cb pb mA inner mB).mB = cb :=
+  pwh_eq cb pb mA inner mB h
 
-example : pageWidthOrHeight 200 none (some 100) none = { mA := 50, inner := 100, mB := 50 } := by
+/-- the clause for a page box with different top and bottom (left and right) decorations: what is taken
+    off the sheet is the sum of ALL FOUR of border-before, padding-before, padding-after, border-after -/
+theorem page_box_equation_deco (cb : Rat) (d : Deco) (mA mB : Option Rat) :
+    (pageWidthOrHeight cb d.sum mA none mB).mA + d.bA + d.pA + (pageWidthOrHeight cb d.sum mA none mB).inner
+      + d.pB + d.bB + (pageWidthOrHeight cb d.sum mA none mB).mB = cb := by
+  have := pwh_eq cb d.sum mA none mB (Or.inr (Or.inl rfl))
+  simp only [Deco.sum] at this ⊢
+  grind
+
+example : pageWidthOrHeight 200 0 none (some 100) none = { mA := 50, inner := 100, mB := 50 } := by
   simp only [pageWidthOrHeight, Oriented.mk.injEq]; grind
 
+example : (pageWidthOrHeight 200 ({ bA := 4, pA := 6, bB := 20 } : Deco).sum (some 10) none (some 10)).inner = 150 := by
+  simp only [pageWidthOrHeight, Deco.sum, Option.getD_some]; grind
+
 /-- given values are kept -/
-theorem page_box_given (cb a i b : Rat) :
-    pageWidthOrHeight cb (some a) (some i) (some b) = { mA := a, inner := i, mB := b } := rfl
+theorem page_box_given (cb pb a i b : Rat) :
+    pageWidthOrHeight cb pb (some a) (some i) (some b) = { mA := a, inner := i, mB := b } := rfl
 
 /-- auto margins with an auto size are zero -/
-theorem page_auto_margins_zero (cb : Rat) :
-    pageWidthOrHeight cb none none none = { mA := 0, inner := cb, mB := 0 } := by
+theorem page_auto_margins_zero (cb pb : Rat) :
+    pageWidthOrHeight cb pb none none none = { mA := 0, inner := cb - pb, mB := 0 } := by
   simp only [pageWidthOrHeight, Option.getD_none, Oriented.mk.injEq]; grind
 
 /-! ## counters -/
